@@ -116,6 +116,11 @@ class Interp:
             if v[0] == 'flag':
                 return K('flag', not v[1])
             return K('not', v)
+        if isinstance(e, ast.BoolOp):
+            vals = [self.ev(v, env) for v in e.values]
+            if all(v[0] == 'flag' for v in vals):
+                return K('flag', all(v[1] for v in vals) if isinstance(e.op, ast.And) else any(v[1] for v in vals))
+            raise Unknown(f'boolean combination {ast.unparse(e)[:60]}', e)
         if isinstance(e, ast.Tuple):
             return K('tuple', *[self.ev(x, env) for x in e.elts])
         if isinstance(e, ast.Attribute):
@@ -292,6 +297,9 @@ class Interp:
                 # count over the whole vector: marginal count
                 return K('cnt', sub[1], val[2])
             raise Unknown(f'count of {render(c)}', e)
+        if d in ('numpy.array_equal', 'numpy.array_equiv') and len(args) == 2 and {args[0][0], args[1][0]} == {'vec'} and args[0][1] != args[1][1]:
+            # the summary describes the path of a non-identical pair (the self-pair predicate itself is C02.2 / C03.5)
+            return K('flag', False)
         if d == 'numpy.zeros':
             return K('zeros', args[0])
         if d in ('numpy.min', 'numpy.max') and len(args) == 1 and args[0][0] == 'sub':
